@@ -60,6 +60,9 @@ type Model struct {
 	Info      *types.Info
 	noReturn  map[*types.Func]bool
 	enclosing map[ast.Node]*Func
+	defs      map[*types.Var]ast.Expr
+	pure      map[*Func]int
+	inlined   map[ast.Expr]ast.Expr
 }
 
 // NewModel builds the function index for package ecs of the program.
@@ -484,6 +487,21 @@ func (m *Model) FieldByKey(key string) *types.Var {
 
 // ExprString renders an expression canonically (parens and conversions to integer types stripped).
 func (m *Model) ExprString(e ast.Expr) string {
+	return types.ExprString(m.StripConv(m.Inline(m.StripConv(e))))
+}
+
+// BaseString renders e as the base of a field selection: locals resolved and a leading address-of dropped, so that
+// BaseString(e)+".f" equals ExprString of the selector e.f.
+func (m *Model) BaseString(e ast.Expr) string {
+	b := ast.Unparen(m.Inline(m.StripConv(e)))
+	if u, ok := b.(*ast.UnaryExpr); ok && u.Op == token.AND {
+		b = u.X
+	}
+	return types.ExprString(m.StripConv(b))
+}
+
+// RawString renders an expression as written (parens and integer conversions stripped, locals kept).
+func (m *Model) RawString(e ast.Expr) string {
 	return types.ExprString(m.StripConv(e))
 }
 
